@@ -1,4 +1,5 @@
 # C08 — concurrent renders on one engine vs the same renders one at a time (race detector on).
+# A call is (template, data, context); the context reaches the template through context-aware template functions.
 import json
 import os
 import subprocess
@@ -231,32 +232,59 @@ class C08(Prop):
     coq_targets = ["Props/C08.vo", "Run/Judge_C08.vo"]
     needs_race = True
     # one case = one engine and rounds x goroutines concurrent renders (quick: about 2 000 renders)
-    sizes = {"quick": 40, "thorough": 2400}
+    sizes = {"quick": 40, "thorough": 1200}
     shard = 8
     design_ref = "DESIGN.md section 6 C08, section 10"
-    rule = ("one case = one production-mode engine with 8 loaded templates (loops, mixins with blocks, variable "
+    rule = ("one case = one production-mode engine with 11 loaded templates (loops, mixins with blocks, variable "
             "mutation, array push/sort, $global, Math/JSON/Object, while/case/attributes, a data-dependent execution "
-            "error), 1-8 distinct (template, data) jobs, N in {2, 8, 32} goroutines released by a barrier, each with "
-            "its own data value, 2-5 rounds, harness built with -race; non-trivial = at least two concurrent calls "
-            "and every job rendered alone first; distinct by SHA-1 of the case")
+            "error, and three templates ctx/* whose output depends on the CONTEXT of the render through the harness's "
+            "context-aware template functions who/cnum/cget/alive/Req.user/Req.plus supplied via Engine.FuncProvider), "
+            "1-8 distinct jobs (template, data, context: user, number, string table, sometimes already cancelled), "
+            "N in {2, 8, 32} goroutines released by a barrier, each call with its own freshly built data value and its "
+            "own context value, 2-5 rounds, harness built with -race. Two shapes: 'ctx' (about 45% of the cases): "
+            "overlapping renders of the SAME context-dependent template (sometimes 2-3 of them) that differ in their "
+            "context and partly in their data; 'mixed': all templates. Deliberate staggering (85% of the ctx cases, 60% "
+            "of the mixed ones; the rest is a free-running storm): every provider call (the engine is in the middle of "
+            "resolving a function), every call of a harness function and the moment between Render returning its "
+            "reader and the caller reading it is a stagger point at which the call, following a plan drawn from the "
+            "case, passes, yields, or is held until the OTHER renders have passed 1-13 further points (bounded by 2 ms; "
+            "released at once when nobody else is running), so renders really sit inside each other's function "
+            "resolution and unread results; coverage.distribution.stagger reports points/holds/released/timeouts and "
+            "the largest number of renders seen in flight at once. Every concurrent result is compared with the result "
+            "of the same (template, data, context) rendered alone before and after the storm; non-trivial = at least "
+            "two concurrent calls and every job rendered alone first; distinct by SHA-1 of the case. Small batches "
+            "(replay, shrinking candidates, final run of a shrunk witness) are attempted up to 40 times and the first "
+            "attempt that differs is the observation")
     trusted = [
         "PARTIAL: absence of data races is the Go race detector's observation on the code executed by this run "
         "(harness built with -race, GORACE log collected per case); it is not a theorem",
         "the theorems are about logical interference for step functions that satisfy the footprint discipline "
         "(view_preserved/view_determines, reads_only); that Engine.Render's memory accesses have these footprints "
         "is what the race detector and the output comparison observe",
-        "the judge instantiates 'what one render does' with the result observed when the same (template, data) "
-        "was rendered alone on the same engine (replay machine, theorem C08_replay_model_is_sequential)",
-        "Go scheduler: the interleavings that occur are whatever the runtime produces on this machine; the schedule "
-        "under which the model runs is drawn by the generator (the theorems hold for every schedule)",
+        "the judge instantiates 'what one render does' with the result observed when the same (template, data, "
+        "context) was rendered alone on the same engine (replay machine, theorem C08_replay_model_is_sequential)",
+        "context-aware template functions: Models/Sched.v Part 2c models findFunction's bind-per-use (theorems "
+        "C08_context_functions_*); that the Go code binds per use and keeps nothing bound in shared state is observed "
+        "by the context storms, not proved about the Go source",
+        "the harness's own template functions and stagger points (harness/c08ctx.go) are trusted test code: they "
+        "answer only from the context they were bound to; their bookkeeping is mutex-protected and bounded in time",
+        "Go scheduler: the interleavings that occur are whatever the runtime produces on this machine, steered by the "
+        "stagger plans; the schedule under which the model runs is drawn by the generator (the theorems hold for "
+        "every schedule)",
     ]
     assumptions = [
         "data-race freedom of Go memory is observed (race detector on executed code), not proved",
         "claim restricted to loaded templates in production mode (Engine.Debug = false); debug mode reloads on "
         "every Render (C08_debug_mode_reads_only_refuted) and is reported as an observation only",
         "sync.RWMutex provides mutual exclusion as modelled in Models/Sched.v Part 3 (trusted Go runtime)",
+        "template functions supplied by the application are themselves free of cross-call state; the harness's are",
+        "an already cancelled context is only used without a rate limit (with one, Render's select between the "
+        "semaphore and ctx.Done() is a scheduler coin toss, which is not what C08 compares)",
     ]
-    not_yet_proved = []
+    not_yet_proved = [
+        "the correspondence for context-aware functions is by output comparison only: the judge does not run the "
+        "Part 2c machine (cstep) on the harness's cases, and no statement about the Go source of findFunction is proved",
+    ]
 
     # ---------------------------------------------------------------- generation
     def generate(self, rng, n, tier):
@@ -399,7 +427,11 @@ class C08(Prop):
 
     def sample(self, case, obs):
         return {"goroutines": len(case["calls"]), "rounds": case["rounds"], "ratelimit": case["ratelimit"],
+                "shape": case.get("shape", "corpus"), "staggered": bool(case.get("stagger")),
+                "stagger": obs.get("stagger"),
                 "jobs": [unhx(j["tpl"]).decode() for j in case["jobs"]], "calls": case["calls"][:16],
+                "contexts": [{"user": unhx(j["ctx"]["user"]).decode("utf-8", "replace"), "num": j["ctx"]["num"],
+                              "over": j["ctx"]["over"]} for j in case["jobs"] if j.get("ctx")][:8],
                 "sequential_classes": [r["class"] for r in (obs.get("seq") or [])],
                 "first_sequential_output": (unhx(obs["seq"][0]["out"]).decode("utf-8", "replace")[:200]
                                             if obs.get("seq") else None),
@@ -408,8 +440,29 @@ class C08(Prop):
 
     def distribution(self, cases, obss):
         d = {"goroutines": {}, "concurrent_renders": 0, "sequential_renders": 0, "templates": {}, "job_classes": {},
-             "race_reports": 0, "crashed": 0, "go_unequal_cases": 0, "ratelimit": {}, "race_build": True, "gomaxprocs": 0}
+             "race_reports": 0, "crashed": 0, "go_unequal_cases": 0, "ratelimit": {}, "race_build": True, "gomaxprocs": 0,
+             "shapes": {}, "staggered_cases": 0, "context_dependent_renders": 0, "cancelled_context_renders": 0,
+             "rounds_with_same_template_under_different_contexts": 0,
+             "stagger": {"points": 0, "holds": 0, "released": 0, "timeouts": 0, "max_inside": 0}}
         for c, o in zip(cases, obss):
+            sh = c.get("shape", "corpus")
+            d["shapes"][sh] = d["shapes"].get(sh, 0) + 1
+            d["staggered_cases"] += bool(c.get("stagger"))
+            nr = len(o.get("conc") or [])
+            by_tpl = {}
+            for g in c["calls"]:
+                j = c["jobs"][g]
+                if unhx(j["tpl"]).startswith(b"ctx/"):
+                    d["context_dependent_renders"] += nr
+                    by_tpl.setdefault(j["tpl"], set()).add(json.dumps(j.get("ctx"), sort_keys=True))
+                if (j.get("ctx") or {}).get("over"):
+                    d["cancelled_context_renders"] += nr
+            if any(len(v) > 1 for v in by_tpl.values()):
+                d["rounds_with_same_template_under_different_contexts"] += nr
+            st = o.get("stagger") or {}
+            for k in ("points", "holds", "released", "timeouts"):
+                d["stagger"][k] += st.get(k, 0)
+            d["stagger"]["max_inside"] = max(d["stagger"]["max_inside"], st.get("max_inside", 0))
             n = str(len(c["calls"]))
             d["goroutines"][n] = d["goroutines"].get(n, 0) + 1
             d["concurrent_renders"] += len(c["calls"]) * len(o.get("conc") or [])
